@@ -33,7 +33,7 @@ from pexpect.exceptions import EOF, TIMEOUT
 PROPERTY = 'C14'
 RULE = ('Hypothesis-generated histories (1-5 calls, each blocking or awaited; regex or exact patterns; window; bytes|'
         'utf-8) x arrival schedules (pieces written before a call, between calls, one or several per loop turn during '
-        'an await, EOF after/with the last data, silence) on a real fdspawn over a pipe; twin replay of the observed '
+        'an await, EOF after/with the last data, silence) on a real fdspawn (select or poll) over a pipe or a pty pair, incl. awaited timeout=0 polls and blocking waits with no limit / 0.9 s whose text a timer thread writes 50 ms in; twin replay of the observed '
         'chunks on the blocking implementation.  Non-trivial: >= 2 awaited calls with data arriving both during and '
         'between them, or blocking and awaited calls mixed on one object with data pending across the switch.  '
         'Distinct by hash of the case.')
